@@ -71,7 +71,9 @@ def observe(cat, k, old_j, new_j):
         ds = patching.strip_unchanged(d)
     dself = patching.make_diff(old, old, rb, [])
     flines = [lex_signed(l) for l in cat.formatter.diff(ds)]
-    glines = [lex_signed(l.rstrip("\n"), True) for l in gen_pre_as_diff(patching.make_pre(ds), False, "  ", True)]
+    # `annet diff --show-rules` prints a `# <rule>` remark above every group: remarks aside it is the same view (every other case)
+    show_rules = _N[0] % 2 == 0
+    glines = [lex_signed(l.rstrip("\n"), True) for l in gen_pre_as_diff(patching.make_pre(ds), show_rules, "  ", True) if not l.startswith("#")]
     return {"rb": k, "old": old_j, "new": new_j, "diff": cases.jdiff(d), "stripped": cases.jdiff(ds), "self": cases.jdiff(dself),
             "flines": flines, "glines": glines}
 
